@@ -1,6 +1,7 @@
 import PpciVerif.Model.MCode
 import PpciVerif.Model.RA
 import PpciVerif.Proofs.RA
+import PpciVerif.Proofs.RASpill
 /-!
 # C06 — register allocation never clobbers a live value (verified validator)
 
@@ -18,7 +19,7 @@ instructions as functions of their declared uses and of the memory state; all th
 quantify over it, over `Js`, over the initial state and over the number of steps.
 -/
 namespace Props.C06
-open Model.MCode Model.RA Proofs.RA
+open Model.MCode Model.RA Proofs.RA Proofs.RASpill
 
 /-- **Soundness of the validator.**  If `check` accepts, then from any pair of related
     states — same program point, same memory, every live value present in its register —
@@ -79,6 +80,47 @@ theorem shared_register_means_copies (p : Program) (A : Alloc) (h : check p A = 
   have h1 := hr.2.2 v hv
   have h2 := hr.2.2 w hw
   rw [← h1, ← h2, hcol]
+
+/-- **Soundness of the spill-step validator.**  `pre` is the instruction list before one
+    call of `rewrite_program`, `post` the list after it with the load/store code abstracted
+    to `load f`/`store f` of the one new stack slot.  If `checkSpillStep` accepts, then from
+    matched states — `post` at the start of the code for the instruction `pre` is at, same
+    memory, equal values in every live register that is neither spilled nor fresh, the slot
+    holding the value of every live temp of the spilled node — for any number `n` of steps
+    of `pre` there is a number `m` of steps of `post` after which the states are matched
+    again, for every instruction semantics, every junk `Jp` left by the ordinary
+    instructions in overlapping fixed registers (the same for both lists) and every junk
+    `Js` left in the scratch registers of the spill code. -/
+theorem spillStep_sound (pre : Program) (post : List SInstr) (C : SpillCtx) (live : Nat → List VReg)
+    (plan : Nat → Plan) (h : checkSpillStep pre post C live plan = true)
+    {Val σ : Type} (S : Sem Val σ) (Jp Js : Nat → PReg → Val) (n : Nat)
+    (s : VState Val σ) (t : SState Val σ)
+    (hpc : t.pc = offset plan pre s.pc) (hst : t.st = s.st)
+    (hregs : ∀ r ∈ live s.pc, r ∉ C.temps → r ∉ C.fresh → t.regs r = s.regs r)
+    (hslot : ∀ r ∈ live s.pc, r ∈ C.temps → t.slot = s.regs r) :
+    ∃ m,
+      let s' := vrunF S C.model Jp pre n t.k s
+      let t' := srun S C.model Jp Js post m t
+      t'.pc = offset plan pre s'.pc ∧ t'.st = s'.st ∧
+      (∀ r ∈ live s'.pc, r ∉ C.temps → r ∉ C.fresh → t'.regs r = s'.regs r) ∧
+      (∀ r ∈ live s'.pc, r ∈ C.temps → t'.slot = s'.regs r) :=
+  spill_run pre post C live plan (checkSpillStep_sound pre post C live plan h) S Jp Js n s t ⟨hpc, hst, hregs, hslot⟩
+
+/-- At function entry the matched state exists whenever no temp of the spilled node is
+    live-in at entry: same registers, any slot content. -/
+theorem spillStep_sound_from_entry (pre : Program) (post : List SInstr) (C : SpillCtx) (live : Nat → List VReg)
+    (plan : Nat → Plan) (h : checkSpillStep pre post C live plan = true)
+    (hentry : ∀ r ∈ live 0, r ∉ C.temps)
+    {Val σ : Type} (S : Sem Val σ) (Jp Js : Nat → PReg → Val) (n : Nat) (R : VReg → Val) (st : σ) (sl : Val) :
+    ∃ m,
+      let s' := vrunF S C.model Jp pre n 0 ⟨0, R, st⟩
+      let t' := srun S C.model Jp Js post m ⟨0, R, st, sl, 0⟩
+      t'.pc = offset plan pre s'.pc ∧ t'.st = s'.st ∧
+      (∀ r ∈ live s'.pc, r ∉ C.temps → r ∉ C.fresh → t'.regs r = s'.regs r) :=
+  let ⟨m, hm⟩ := spill_run pre post C live plan (checkSpillStep_sound pre post C live plan h) S Jp Js n
+    (⟨0, R, st⟩ : VState Val σ) ⟨0, R, st, sl, 0⟩
+    ⟨by simp [offset, expandAll], rfl, fun _ _ _ _ => rfl, fun r hr ht => absurd ht (hentry r hr)⟩
+  ⟨m, hm.1, hm.2.1, hm.2.2.1⟩
 
 /-! ### non-vacuity and negative witnesses (tests, labelled as such)
 
@@ -144,5 +186,32 @@ def fxAlloc (c0 : PReg) : Alloc := {
 example : check fxProg (fxAlloc 2) = true := by decide +kernel
 /-- … but a virtual register must not be put where it overlaps the live fixed `r1` -/
 example : check fxProg (fxAlloc 6) = false := by decide +kernel
+
+/-! Spill step: temp 1 is spilled; its def gets fresh 5 and a store, its use fresh 6 and a load.
+
+    pre:   0: 1 := f(0)      post:  0: 5 := f(0)
+           1: use 1, 0              1: store 5
+                                    2: load 6
+                                    3: use 6, 0                                   -/
+def spPre : Program := [
+  { uses := [0], defs := [1], clobbers := [], isMove := false, jumps := [], label := none, sem := 0 },
+  { uses := [1, 0], defs := [], clobbers := [], isMove := false, jumps := [], label := none, sem := 1 }]
+def spPlan : Nat → Plan := fun i =>
+  [{ ren := [(1, 5)], lclob := [], sclob := [] }, { ren := [(1, 6)], lclob := [], sclob := [] }].getD i
+    { ren := [], lclob := [], sclob := [] }
+def spCtx : SpillCtx := { temps := [1], fresh := [5, 6], model := { alias := fun _ _ => false, colour := id, fixed := fun _ => false } }
+def spLive : Nat → List VReg := fun i => [[0], [1, 0]].getD i []
+def spPost : List SInstr := [
+  .ins { uses := [0], defs := [5], clobbers := [], isMove := false, jumps := [], label := none, sem := 0 },
+  .store 5 [], .load 6 [],
+  .ins { uses := [6, 0], defs := [], clobbers := [], isMove := false, jumps := [], label := none, sem := 1 }]
+/-- the reload placed one instruction too early (before the store) is rejected -/
+def spPostBad : List SInstr := [
+  .ins { uses := [0], defs := [5], clobbers := [], isMove := false, jumps := [], label := none, sem := 0 },
+  .load 6 [], .store 5 [],
+  .ins { uses := [6, 0], defs := [], clobbers := [], isMove := false, jumps := [], label := none, sem := 1 }]
+
+example : checkSpillStep spPre spPost spCtx spLive spPlan = true := by decide +kernel
+example : checkSpillStep spPre spPostBad spCtx spLive spPlan = false := by decide +kernel
 
 end Props.C06
